@@ -1,6 +1,7 @@
 //! avrodrive: runs cases (one per stdin line) against the real serde_avro_fast
 //! crate in /repo and prints one canonical result per line.
 
+mod apache;
 mod container;
 mod dtarget;
 mod io;
@@ -179,6 +180,8 @@ fn run_case(line: &str) -> String {
 		"freeze" => cmd_freeze(args),
 		"cw" => container::cmd_cw(args),
 		"cr" => container::cmd_cr(args),
+		"apache_read" => apache::cmd_apache_read(args),
+		"apache_write" => apache::cmd_apache_write(args),
 		other => Err(format!("unknown command {other}")),
 	}));
 	match r {
